@@ -543,8 +543,13 @@ func (o Otto) Call(source string, this interface{}, argumentList ...interface{})
 		construct = true
 	}
 
-	// FIXME enterGlobalScope
-	o.runtime.enterGlobalScope()
+	// Entering the context can itself hit the stack depth limit (Call from a
+	// host function at the limit): that is an error to return like any other.
+	if err := catchPanic(func() {
+		o.runtime.enterGlobalScope()
+	}); err != nil {
+		return Value{}, err
+	}
 	defer func() {
 		o.runtime.leaveScope()
 	}()
